@@ -65,6 +65,9 @@ M = [
     ("C12-equals-ignores-limb3", ["C12"], "internal/field/element.go", "\tres |= e.E[3] ^ u.E[3]\n", ""),
     ("C12-reduce-top-limb-mask", ["C12", "C03"], "internal/field/element.go", "\tx[3] = (xMinP[3] & ^mask) | (x[3] & mask)", "\tx[3] = (xMinP[3] & mask) | (x[3] & ^mask)"),
     ("C12-wide-reduction-constant", ["C12", "C08"], "internal/field/element.go", "two192 = &MontgomeryDomainFieldElement{0, 0, 0, 4294968273}", "two192 = &MontgomeryDomainFieldElement{0, 0, 0, 4294968272}"),
+    ("C12-invert-chain-one-squaring-less", ["C12", "C04"], "internal/field/fe_invert.go", "for s := 0; s < 46; s++ {", "for s := 0; s < 45; s++ {"),
+    ("C06-scalar-invert-chain-one-squaring-less", ["C06"], "internal/scalar/scalar_invert.go", "for s := 0; s < 60; s++ {", "for s := 0; s < 59; s++ {"),
+    ("C12-sqrt-chain-one-squaring-more", ["C12", "C03"], "internal/field/fe_expPMin3Div4.go", "for s := 1; s < 108; s++ {", "for s := 1; s < 109; s++ {"),
     # ---- C15 / C16
     ("C15-order-returns-package-slice", ["C15"], "group.go",
      "func Order() []byte {", "var orderBytes = orderFresh()\n\n// Order returns the order of the canonical group of scalars.\nfunc Order() []byte { return orderBytes }\n\nfunc orderFresh() []byte {"),
